@@ -16,9 +16,11 @@ WILD_MIN_BOUND = 200
 
 
 class Result:
-    def __init__(self, rule: str, ok: bool, construct: str, atom: str, message: str, detail: str = "") -> None:
+    def __init__(self, rule: str, ok: bool, construct: str, atom: str, message: str, detail: str = "",
+                 cat: str = "", role: str = "", tags: Tuple[str, ...] = ()) -> None:
         self.rule, self.ok, self.construct, self.atom, self.message, self.detail = (
             rule, ok, construct, atom, message, detail)
+        self.cat, self.role, self.tags = cat, role, tags
 
     def __repr__(self) -> str:
         return f"{'ok ' if self.ok else 'FAIL'} {self.rule} {self.construct} [{self.atom}] {self.message}"
@@ -31,7 +33,9 @@ class Judge:
     def put(self, rule: str, ok: bool, node: NodeInfo, atom: str, message: str) -> bool:
         construct = f"{node.cls}.get_regex"
         self.results.append(Result(rule, ok, construct, atom if not ok else "", message,
-                                   f"{node.where()} T={node.tmpl.render() if node.tmpl else None}"))
+                                   f"{node.where()} T={node.tmpl.render() if node.tmpl else None}",
+                                   node.category, node.role))
+        self.results[-1].timed = tuple(node.times) != (1, 1)  # type: ignore[attr-defined]
         return ok
 
 
@@ -164,6 +168,8 @@ def take_name(cur: Cursor, node: NodeInfo) -> Tuple[bool, str]:
     text = node.name_text
     if cur.take_lit(text):
         return True, ""
+    if _re.fullmatch(r"[0-9a-fA-F]+h", text) and cur.take_lit("0x" + text[:-1]):
+        return False, "name rewritten: h-suffixed hex literal NNh -> 0xNN"
     return False, f"name {text!r} rewritten to {cur.rest()[:len(text) + 6]!r}"
 
 
@@ -286,8 +292,10 @@ def check_or(node: NodeInfo, a: Analysed, J: Judge) -> None:
         return
     s = rx.strip_groups(body)
     branches = s.branches if isinstance(s, rx.Alt) else [s]
-    got = sorted(b.hole.tag if isinstance(b, rx.HoleN) else repr(b) for b in branches)
-    want = sorted(child_tags(node))
+    eq = getattr(node, "equiv", {})
+    canon = lambda t: min(eq.get(t, {t}) | {t})
+    got = sorted(canon(b.hole.tag) if isinstance(b, rx.HoleN) else repr(b) for b in branches)
+    want = sorted(canon(t) for t in child_tags(node))
     J.put("A1.alternation", got == want, node, "|".join(got) + "!=" + "|".join(want),
           "$or is the alternation of exactly its children, each alternative one child")
 
@@ -305,7 +313,10 @@ def check_any_order(node: NodeInfo, a: Analysed, J: Judge) -> None:
     for b in branches:
         its = rx.seq_items(b)
         got.append(tuple(n.hole.tag if isinstance(n, rx.HoleN) else repr(n) for n in its))
-    tags = child_tags(node)
+    eq = getattr(node, "equiv", {})
+    canon = lambda t: min(eq.get(t, {t}) | {t})
+    tags = [canon(t) for t in child_tags(node)]
+    got = [tuple(canon(t) for t in g) for g in got]
     want = sorted(itertools.permutations(tags))
     J.put("A3.permutations", sorted(got) == want, node, f"{sorted(got)[:3]}...!={len(want)} permutations",
           "$and_any_order is the alternation of all orderings of its children, each child exactly once")
@@ -733,4 +744,5 @@ def judge_skeleton(sk: Skeleton, analysed: List[Analysed]) -> List[Result]:
             check_numbering(a, J)
     for r in J.results:
         r.detail = f"{sk.label} :: {r.detail}"
+        r.tags = tuple(sk.tags)
     return J.results
